@@ -210,7 +210,18 @@ def main(tier, seed):
         res.disagreements.extend(pair.disagreements[:3]); pair.disagreements = []
         # reader oracle at every operation boundary of writer histories
         hs = [random_history(r, r.choice([5, 9, 14])) for _ in range(25 if tier == "quick" else 500)]
-        for h in hs:
+        for hi, h in enumerate(hs):
+            if hi % 3 == 1:
+                # make_read_only in the middle (it rewrites BOTH header slots), then entries written by the same
+                # instance (clears): they must carry the header bit a JavaScript reader expects
+                pos = r.randrange(1, len(h) + 1)
+                nb = sum(len(o[1]) for o in h[:pos] if o[0] == "append")
+                tail = []
+                for _ in range(r.choice([1, 2, 3]) if nb else 0):
+                    s0 = r.randrange(nb)
+                    tail.append(("clear", s0, s0 + r.choice([1, 1, 2])))
+                h[pos:pos] = [("readonly",)] + tail
+                res.count("histories-with-make-read-only")
             def on_step(k, op, spec, pair=pair):
                 reader_check(pair, "W", "D", "after step %d %s" % (k, op_text(op)))
                 res.count("reader-checks")
@@ -250,6 +261,36 @@ def main(tier, seed):
                 except Violation as vv:
                     res.violations.append(dict(key=vv.key, what=vv.what, replay=dict(world=k)))
             res.add_case(("replica-world", k), True)
+            res.disagreements.extend(pair.disagreements[:2]); pair.disagreements = []
+        # make_read_only on a replica, then proof applications by the same instance
+        import repl
+        for k in range(6 if tier == "quick" else 80):
+            w = repl.build_world(pair, r, nblocks=r.choice([4, 8, 12]))
+            try:
+                did_ro = False
+                for step in range(6):
+                    if step == 1 or (step > 1 and r.random() < 0.15):
+                        ia, _ = pair.do("readonly R"); w.log.append("readonly R"); did_ro = True
+                        if ia != "ok 0":
+                            raise Violation("replica:readonly", "make_read_only on a replica answered " + ia, step)
+                    else:
+                        req = w.honest_request(r, kinds=["block", "block", "upgrade"])
+                        if req is None:
+                            continue
+                        ia, _ = w.prove(**req[1])
+                        if not ia.startswith("ok ") or ia == "ok none":
+                            continue
+                        aa, _ = w.apply(ia[3:])
+                        if aa != "ok 1":
+                            raise Violation("replica:accept", "honest proof refused: " + aa, step)
+                        w.note_applied(repl.parse_proof(ia[3:]))
+                    reader_check(pair, "R", "RD", "replica with make_read_only, world %d step %d" % (k, step))
+                    res.count("reader-checks-replica-readonly")
+                w.r_reopen()
+                w.check_replica("replica with make_read_only, after reopen")
+            except Violation as vv:
+                res.violations.append(dict(key=vv.key, what=vv.what, replay=dict(world=w.log)))
+            res.add_case(("replica-readonly-world", k), True)
             res.disagreements.extend(pair.disagreements[:2]); pair.disagreements = []
         res.extra["commands_compared"] = pair.ncmp
     finally:
